@@ -1,5 +1,6 @@
 import AmaranthVerif.Proofs.MemoryCtor
 import AmaranthVerif.Proofs.MemoryRename
+import AmaranthVerif.Proofs.MemQueue
 
 /-!
 # C11 — memories behave as arrays of rows under any port configuration
@@ -610,5 +611,40 @@ example : [0, 1, 2].map (MemRows.target [(0, 1), (1, 2)]) = [1, 2, 2] := by deci
 example : [0, 1, 2].map (MemRows.target [(0, 1), (1, 2), (2, 0)]) = [1, 2, 0] := by decide
 example : [0, 1, 2].map (renameDom [(0, 1), (1, 2), (2, 0)]) = [1, 2, 0] := by decide
 example : WF (exCfg.rename [(0, 1), (1, 0)]) := rename_keeps_wf _ _ exWF
+
+/-! ## The write queue of the simulator's memory state (`_PyMemoryState.write` / `commit`)
+
+`Model/MemQueue.lean`; tied to the real class at unit level by the `mq` request of the driver (scripts of
+`write(addr, value, mask)` calls followed by one `commit()`, rows and returned flag compared). -/
+
+/-- What becomes pending for the written row: the masked bits of the value over what was pending for it (the
+committed row at the first write of a delta, the queued row afterwards), sign-fixed; every other row is left
+alone; `commit()` stores exactly what is pending. -/
+theorem queued_row (sh : Shape) (rows : List Int) (q : Queue) (a : Nat) (v m : Int) (ha : a < rows.length)
+    (hq : q.length = rows.length) :
+    pending rows (qwrite sh rows q a v m) a = resign sh (pyMerge v m (pending rows q a)) ∧
+    (∀ b, b ≠ a → pending rows (qwrite sh rows q a v m) b = pending rows q b) ∧
+    (∀ b, b < rows.length → (commit rows (qwrite sh rows q a v m)).getD b 0 = pending rows (qwrite sh rows q a v m) b) :=
+  ⟨pending_qwrite_same sh rows q a v m ha hq, fun b hb => pending_qwrite_other sh rows q a b v m hb hq,
+   fun b hb => commit_getD rows _ b hb⟩
+
+/-- Writes to different rows in one delta commute, whatever their masks: the committed array does not depend on the
+order in which the writing processes ran. -/
+theorem writes_to_distinct_rows_commute (sh : Shape) (rows : List Int) (q : Queue) (a b : Nat) (v1 m1 v2 m2 : Int)
+    (hab : a ≠ b) (hq : q.length = rows.length) :
+    qwrite sh rows (qwrite sh rows q a v1 m1) b v2 m2 = qwrite sh rows (qwrite sh rows q b v2 m2) a v1 m1 :=
+  qwrite_comm_rows sh rows q a b v1 m1 v2 m2 hab hq
+
+/-- `commit()` returns `True` (and so wakes the processes waiting on the memory) exactly when some row changed —
+not only when the row queued last did. -/
+theorem commit_reports_change (rows : List Int) (q : Queue) :
+    commitChanged rows q = true ↔ commit rows q ≠ rows :=
+  commitChanged_iff rows q
+
+/-- two rows queued, the one queued last unchanged: the flag is still `True` (seeded change C08-r2-2) -/
+example : runOps ⟨4, false⟩ [1, 2, 3] [⟨0, 5, none⟩, ⟨2, 3, none⟩] = ([5, 2, 3], true) := by decide
+/-- two masked writes to one signed row in one delta: the second merges with the first (seeded change C05-r5-1) -/
+example : runOps ⟨8, true⟩ [0, 0] [⟨1, 0x0f, some 0x0f⟩, ⟨1, 0xf0, some 0xf0⟩] = ([0, -1], true) := by decide
+example : runOps ⟨8, true⟩ [7] [⟨0, 7, none⟩, ⟨3, 1, none⟩] = ([7], false) := by decide
 
 end Amaranth.C11
